@@ -23,6 +23,8 @@ PROPERTY = {
 
 
 def check(run):
+    from checks.main import reflection_bounded
+    reflection_bounded(run)
     run.verify_functions(RECOGNIZER + LOADER + STRIP + CONSTR)
     raw = langs.native_tables(run.repo)
     table = raw['loader']
